@@ -17,24 +17,28 @@ func genSlogLevels() (string, int, error) {
 		return "", 0, err
 	}
 	var rows []string
-	want := -12
+	seen := map[int]bool{}
+	prev, first := 0, true
 	for _, ln := range strings.Split(strings.TrimSpace(d), "\n") {
 		var l, z int
 		if _, err := fmt.Sscanf(ln, "%d %d", &l, &z); err != nil {
 			return "", 0, fmt.Errorf("bad dump line %q", ln)
 		}
-		if l != want {
-			return "", 0, fmt.Errorf("dump line %q: expected slog level %d", ln, want)
+		if !first && l <= prev {
+			return "", 0, fmt.Errorf("dump line %q: slog levels must be strictly ascending", ln)
 		}
-		want++
+		prev, first = l, false
+		seen[l] = true
 		rows = append(rows, fmt.Sprintf("(%s, %s)", leanInt(l), leanInt(z)))
 	}
-	if want != 13 {
-		return "", 0, fmt.Errorf("dump covers %d levels, want 25", want+12)
+	for l := -12; l <= 12; l++ {
+		if !seen[l] {
+			return "", 0, fmt.Errorf("dump does not cover slog level %d", l)
+		}
 	}
 	var sb strings.Builder
 	sb.WriteString("namespace ZapVerif.Gen\n\n")
-	sb.WriteString("/-- (slog level, zap level `convertSlogLevel` maps it to) for −12…12 -/\n")
+	sb.WriteString("/-- (slog level, zap level `convertSlogLevel` maps it to) for every level in −12…12 and far-out sample points on both sides, ascending -/\n")
 	sb.WriteString("def slogLevels : List (Int × Int) := [\n  " + strings.Join(rows, ", ") + "]\n\n")
 	sb.WriteString("end ZapVerif.Gen\n")
 	return sb.String(), len(rows), nil
